@@ -130,18 +130,27 @@ fn live_main(a: &[String]) {
             })
             .unwrap();
         let mut last = usize::MAX;
-        let mut idle = std::time::Instant::now();
+        // idle time is counted in watchdog ticks, not in wall-clock time: an iteration that took much longer than its 2 ms
+        // sleep means that this thread - hence the whole process or machine - was stalled (VM hiccups of seconds were
+        // observed in this sandbox); such a gap counts as 20 ms at most, so a machine-wide stall is not taken for a hang
+        let mut idle_us: u64 = 0;
+        let mut tick = std::time::Instant::now();
         let mut fails = vec![];
         loop {
             if h.is_finished() {
                 fails = h.join().unwrap_or_else(|_| vec!["scenario thread died".into()]);
                 break;
             }
+            let dt = tick.elapsed().as_micros() as u64;
+            tick = std::time::Instant::now();
             let n = rt::LIVE_EVENTS.load(Ordering::Relaxed);
             if n != last {
                 last = n;
-                idle = std::time::Instant::now();
-            } else if idle.elapsed().as_millis() as u64 > b.hang_ms {
+                idle_us = 0;
+            } else {
+                idle_us += dt.min(20_000);
+            }
+            if idle_us / 1000 > b.hang_ms {
                 hung = true;
                 fails.push(format!("hang: no hooked event for {} ms while the scenario is unfinished", b.hang_ms));
                 break;
